@@ -211,10 +211,10 @@ def split(val: str, sep: str) -> list[str]:
     If _sep_ is empty or _undefined_, _val_ is split into a list of single
     characters. If _val_ is empty or equal to _sep_, an empty list is returned.
     """
+    sep = to_liquid_string(sep)
     if not sep:
         return list(val)
 
-    sep = to_liquid_string(sep)
     if not val or val == sep:
         return []
 
